@@ -24,7 +24,7 @@ import (
 func init() {
 	Registry["C13"] = &Check{
 		Scenarios: c13Scenarios,
-		Rule: "client side: MaxRetransmits R in {0,1,2}, WatchdogInterval 3 s, RetransmitInterval 1 s on the virtual clock; the peer's reaction to the n-th DWR transmission is scripted from {success DWA after 0, 1/2 or 1 interval (1 = exact tie with the retransmission timer), DWA 5012 at once, silence}, scripts with other non-success answers (1001, 3004, a DWA without Result-Code), plus five burst scripts with answers delayed by 3/2 and 5/2 intervals (several late answers landing inside one later waiting window); all scripts of length <=2 (thorough 3), silence afterwards, so every run ends with the watchdog closing the connection; every schedule of watchdog thread, reader, timers and peer up to preemption bound 2 (thorough: unbounded for scripts of length <=1); peer steps and due timers are free transitions, so every ordering of answer / timer / reader is explored already at bound 0. Oracle: the observed (time, hop-by-hop id) sequence of DWRs and the close time must be one of the timelines of a reference model (branching only at exact ties). Redial: the peer of a first connection leaves the first DWR unanswered and disconnects 0 or 1/2 interval later, the application redials at once with the same Client, and the second connection (peer answers two DWRs, then silence) must show the model's timeline measured from its own handshake (R in {0,1}). Two live connections of one Client (dialled one after the other, both peers answer every DWR): neither is closed and each sees one DWR per interval. Server side: for every DWR from a handshaken peer over {both identity AVPs, Origin-Host missing, Origin-Realm missing, with Origin-State-Id} x ids {0,1,2^31,2^32-1}^2 the state machine must answer a success DWA with the local identity and the request's ids.",
+		Rule: "client side: MaxRetransmits R in {0,1,2}, WatchdogInterval 3 s, RetransmitInterval 1 s on the virtual clock; the peer's reaction to the n-th DWR transmission is scripted from {success DWA after 0, 1/2 or 1 interval (1 = exact tie with the retransmission timer), DWA 5012 at once, silence}, scripts with other non-success answers (1001, 3004, a DWA without Result-Code), plus five burst scripts with answers delayed by 3/2 and 5/2 intervals (several late answers landing inside one later waiting window); all scripts of length <=2 (thorough 3), silence afterwards, so every run ends with the watchdog closing the connection; every schedule of watchdog thread, reader, timers and peer up to preemption bound 2 (thorough: unbounded for scripts of length <=1); peer steps and due timers are free transitions, so every ordering of answer / timer / reader is explored already at bound 0. Oracle: the observed (time, hop-by-hop id) sequence of DWRs and the close time must be one of the timelines of a reference model (branching only at exact ties). Redial: the peer of a first connection leaves the first DWR unanswered and disconnects 0 or 1/2 interval later, the application redials at once with the same Client, and the second connection (peer answers two DWRs, then silence) must show the model's timeline measured from its own handshake (R in {0,1}). Two live connections of one Client (dialled one after the other, both peers answer every DWR): neither is closed and each sees one DWR per interval. A client with the watchdog enabled answers a DWR its handshaken peer sends (between rounds and at the instant of its own DWR). Server side: for every DWR from a handshaken peer over {both identity AVPs, Origin-Host missing, Origin-Realm missing, with Origin-State-Id} x ids {0,1,2^31,2^32-1}^2 the state machine must answer a success DWA with the local identity and the request's ids.",
 		Assume: []string{"virtual time: writes and computation take no time", "data-race freedom between visible operations (audited separately with -race)"},
 		QuickBudget: 150, ThoroughBudget: 2400,
 	}
@@ -117,6 +117,9 @@ func c13Scenarios(tier string) []*Scenario {
 		}
 	}
 	out = append(out, c13TwoLive(0, 0))
+	for _, at := range []time.Duration{c13I, c13W} { // between rounds, and exactly when the client's own DWR goes out
+		out = append(out, c13PeerDWR(at, bound))
+	}
 	out = append(out, &Scenario{Name: "server/dwr-grid", Seq: c13Server})
 	return out
 }
@@ -704,4 +707,77 @@ func c13TwoWant() []time.Duration {
 		w = append(w, time.Duration(k)*c13W)
 	}
 	return w
+}
+
+// c13PeerDWR: a client with the watchdog enabled is itself asked (the peer runs a watchdog too):
+// the DWR the handshaken peer sends must be answered with a success DWA carrying the local
+// identity and the request's identifiers, while the client's own watchdog rounds go on.
+var c13peer struct {
+	dwas  []*PMsg
+	dialOK bool
+	conn  *vnet.Conn
+}
+
+func c13PeerDWR(at time.Duration, bound int) *Scenario {
+	body := func() {
+		c13peer.dwas, c13peer.dialOK = nil, false
+		conn := vnet.NewConn("C")
+		conn.Pieces = 1
+		c13peer.conn = conn
+		settings := &sm.Settings{OriginHost: "cli", OriginRealm: "test", VendorID: 13, ProductName: "prod",
+			HostIPAddresses: []datatype.Address{datatype.Address(net.ParseIP("10.0.0.2"))}}
+		mach := sm.New(settings)
+		cli := &sm.Client{Handler: mach, Dict: dict.Default, MaxRetransmits: 0, RetransmitInterval: c13I,
+			EnableWatchdog: true, WatchdogInterval: c13W,
+			AuthApplicationID: []*diam.AVP{diam.NewAVP(avp.AuthApplicationID, avp.Mbit, 0, datatype.Unsigned32(4))}}
+		vs.GoNamed("peer", true, func() {
+			p := &Peer{C: conn}
+			for {
+				m := p.Next()
+				if m == nil {
+					return
+				}
+				switch {
+				case m.Hdr.Code == 257:
+					conn.Deliver(peerAnswer(m, 2001, true))
+					vs.GoNamed("peer-watchdog", true, func() {
+						vs.TimeSleep(at)
+						vs.Event("peer: sends its own DWR")
+						conn.Deliver(refcodec.EncodeMessage(refcodec.Header{Version: 1, Flags: 0x80, Code: 280, HbH: 0x80000000, E2E: 7},
+							[]refcodec.Node{ident(264, "srv"), ident(296, "test")}))
+					})
+				case m.Hdr.Code == 280 && m.Hdr.Flags&0x80 != 0:
+					conn.Deliver(peerAnswer(m, 2001, false))
+				case m.Hdr.Code == 280:
+					c13peer.dwas = append(c13peer.dwas, m)
+				}
+			}
+		})
+		c, err := cli.NewConn(conn, "peer")
+		c13peer.dialOK = c != nil && err == nil
+	}
+	check := func(s *vs.Sched) string {
+		if !c13peer.dialOK {
+			return "harness: dial failed"
+		}
+		if c13peer.conn.Closed {
+			return "the connection was closed although the peer answered every DWR"
+		}
+		if len(c13peer.dwas) != 1 {
+			return fmt.Sprintf("a handshaken peer sent one well-formed DWR to a client with the watchdog enabled: %d DWAs came back", len(c13peer.dwas))
+		}
+		a := c13peer.dwas[0]
+		rc := a.Find(268)
+		switch {
+		case a.Hdr.HbH != 0x80000000 || a.Hdr.E2E != 7:
+			return fmt.Sprintf("DWA identifiers %#x/%#x, the request had 0x80000000/0x7", a.Hdr.HbH, a.Hdr.E2E)
+		case rc == nil || be32(rc.Payload) != 2001:
+			return "the DWA is not a success answer"
+		case a.Find(264) == nil || string(a.Find(264).Payload) != "cli" || a.Find(296) == nil || string(a.Find(296).Payload) != "test":
+			return "the DWA does not carry the local identity"
+		}
+		return ""
+	}
+	return &Scenario{Name: fmt.Sprintf("client-answers-peer-dwr/at-%v", at), Body: body, Check: check, Bound: bound, Horizon: c13W + c13I/2 + at,
+		Outcome: func(s *vs.Sched) string { return fmt.Sprint(len(c13peer.dwas), c13peer.conn.Closed) }}
 }
